@@ -931,6 +931,9 @@ m("c15-selfdestruct-removes-delegator", "C15", "x/evm/keeper/statedb.go",
 m("c07-selector-slice-unguarded", "C07", "precompiles/distribution/distribution.go",
   "\tif len(input) < 4 {\n\t\treturn 0\n\t}\n", "",
   "(precompiles/distribution.Precompile).RequiredGas#prefix-slice-1-guarded", "short calldata panics in RequiredGas again")
+m("c09-merge-lowers-tracked-delegation", "C09", "x/vesting/keeper/msg_server.go",
+  "sdk.MaxInt(trackedAmt, delegatedAmt)", "delegatedAmt",
+  "tracked-delegation-not-lowered", "the merge overwrites the tracking with the current figure alone")
 for prop in ("C16", "C07"):
     m("c%s-gas-meter-without-precharge" % prop[1:], prop, "precompiles/common/precompile.go",
       "sdk.NewGasMeter(initialGas + contract.Gas)", "sdk.NewGasMeter(contract.Gas)",
